@@ -411,3 +411,67 @@ pub(crate) fn deep_keyed_stream_total_order_one_key() {
     kani::assert(!force || r, "C36:forced_decision_is_nontrivial");
     std::mem::forget(h); std::mem::forget(rx); std::mem::forget(input);
 }
+
+// ---------------------------------------------------------------------------------------------- TopLevelFoldHook, two items, ENUMERATED decisions
+/// With a havoc driver the two-item fold harness is out of CBMC's reach (> 20 min).  Here the driver is SCRIPTED: each harness replays
+/// one concrete decision sequence (two include/exclude answers, one Fisher-Yates index); the 8 harnesses enumerate every sequence the
+/// hook can consume for a queue of two items, which is the property's own quantifier.  Items stay symbolic.
+struct ScriptDriver { bools: [bool; 2], bi: usize, idx: usize }
+impl DynDriver for ScriptDriver {
+    fn depth(&self) -> usize { 0 }
+    fn set_depth(&mut self, _depth: usize) {}
+    fn max_depth(&self) -> usize { usize::MAX }
+    fn gen_variant(&mut self, variants: usize, _base_case: usize) -> Option<usize> { Some(if self.idx < variants { self.idx } else { 0 }) }
+    fn gen_usize(&mut self, min: std::ops::Bound<&usize>, max: std::ops::Bound<&usize>) -> Option<usize> {
+        use std::ops::Bound::*;
+        let lo = match min { Included(m) => *m, Excluded(m) => *m + 1, Unbounded => 0 };
+        let hi = match max { Included(m) => *m, Excluded(m) => *m - 1, Unbounded => usize::MAX };
+        Some(if self.idx < lo { lo } else if self.idx > hi { hi } else { self.idx })
+    }
+    fn gen_bool(&mut self, _probability: Option<f32>) -> Option<bool> {
+        let b = if self.bi < 2 { self.bools[self.bi] } else { false };
+        self.bi += 1;
+        Some(b)
+    }
+    fn gen_u8(&mut self, _: std::ops::Bound<&u8>, _: std::ops::Bound<&u8>) -> Option<u8> { unreachable!() }
+    fn gen_i8(&mut self, _: std::ops::Bound<&i8>, _: std::ops::Bound<&i8>) -> Option<i8> { unreachable!() }
+    fn gen_u16(&mut self, _: std::ops::Bound<&u16>, _: std::ops::Bound<&u16>) -> Option<u16> { unreachable!() }
+    fn gen_i16(&mut self, _: std::ops::Bound<&i16>, _: std::ops::Bound<&i16>) -> Option<i16> { unreachable!() }
+    fn gen_u32(&mut self, _: std::ops::Bound<&u32>, _: std::ops::Bound<&u32>) -> Option<u32> { unreachable!() }
+    fn gen_i32(&mut self, _: std::ops::Bound<&i32>, _: std::ops::Bound<&i32>) -> Option<i32> { unreachable!() }
+    fn gen_u64(&mut self, _: std::ops::Bound<&u64>, _: std::ops::Bound<&u64>) -> Option<u64> { unreachable!() }
+    fn gen_i64(&mut self, _: std::ops::Bound<&i64>, _: std::ops::Bound<&i64>) -> Option<i64> { unreachable!() }
+    fn gen_u128(&mut self, _: std::ops::Bound<&u128>, _: std::ops::Bound<&u128>) -> Option<u128> { unreachable!() }
+    fn gen_i128(&mut self, _: std::ops::Bound<&i128>, _: std::ops::Bound<&i128>) -> Option<i128> { unreachable!() }
+    fn gen_isize(&mut self, _: std::ops::Bound<&isize>, _: std::ops::Bound<&isize>) -> Option<isize> { unreachable!() }
+    fn gen_f32(&mut self, _: std::ops::Bound<&f32>, _: std::ops::Bound<&f32>) -> Option<f32> { unreachable!() }
+    fn gen_f64(&mut self, _: std::ops::Bound<&f64>, _: std::ops::Bound<&f64>) -> Option<f64> { unreachable!() }
+    fn gen_char(&mut self, _: std::ops::Bound<&char>, _: std::ops::Bound<&char>) -> Option<char> { unreachable!() }
+    fn gen_from_bytes(&mut self, _hint: &mut dyn FnMut() -> (usize, Option<usize>), _produce: &mut dyn FnMut(&[u8]) -> Option<usize>) -> Option<()> { unreachable!() }
+}
+fn fold2_script(b0: bool, b1: bool, idx: usize) {
+    const N: usize = 2;
+    let it = items::<N>();
+    let input = queue(&it);
+    let (tx, rx) = unbounded::<Vec<u8>>();
+    let mut h = TopLevelFoldHook { input: input.clone(), to_release: None, output: tx, location: LOC, format_item_debug: no_debug };
+    let mut d = ScriptDriver { bools: [b0, b1], bi: 0, idx };
+    let r = h.autonomous_decision(&mut Borrowed(&mut d), kani::any());
+    {
+        let released = h.to_release.as_ref().unwrap();
+        let left = input.borrow();
+        kani::assert(released.len() + left.len() == N, "C36:decision_conserves_item_count");
+        let got = concat::<N>(released, &left);
+        kani::assert(same_multiset(&got, &it, N), "C36:no_order_releases_a_sub_multiset_and_keeps_the_rest");
+        kani::assert(r && !released.is_empty(), "C36:fold_hook_releases_something_whenever_anything_is_queued");
+    }
+    std::mem::forget(h); std::mem::forget(rx); std::mem::forget(input);
+}
+#[kani::proof] #[kani::unwind(5)] pub(crate) fn top_level_fold2_script_ff0() { fold2_script(false, false, 0) }
+#[kani::proof] #[kani::unwind(5)] pub(crate) fn top_level_fold2_script_ff1() { fold2_script(false, false, 1) }
+#[kani::proof] #[kani::unwind(5)] pub(crate) fn top_level_fold2_script_ft0() { fold2_script(false, true, 0) }
+#[kani::proof] #[kani::unwind(5)] pub(crate) fn top_level_fold2_script_ft1() { fold2_script(false, true, 1) }
+#[kani::proof] #[kani::unwind(5)] pub(crate) fn top_level_fold2_script_tf0() { fold2_script(true, false, 0) }
+#[kani::proof] #[kani::unwind(5)] pub(crate) fn top_level_fold2_script_tf1() { fold2_script(true, false, 1) }
+#[kani::proof] #[kani::unwind(5)] pub(crate) fn top_level_fold2_script_tt0() { fold2_script(true, true, 0) }
+#[kani::proof] #[kani::unwind(5)] pub(crate) fn top_level_fold2_script_tt1() { fold2_script(true, true, 1) }
